@@ -507,8 +507,8 @@ impl<'a> Evaluator<'a> {
             }
             *self.lost_edges.borrow_mut() = lost;
             // a variable-length hop in the second pattern re-materialises its input rows: type() of the
-            // first pattern's edges is lost as well
-            if q.chains.len() > 1 && q.chains[1].steps.iter().any(|(e, _)| e.hops.is_some()) {
+            // first pattern's edges is lost as well (`*1..1` is planned as a plain single hop and does not)
+            if q.chains.len() > 1 && q.chains[1].steps.iter().any(|(e, _)| e.hops.is_some_and(|h| h != (1, 1))) {
                 *self.lost_types.borrow_mut() = true;
             }
         }
